@@ -787,6 +787,11 @@ pub fn backpressure(rng: &mut Rng) -> Program {
     w.s_yield = 15;
     w.s_sleep = 40;
     w.s_interval_with = 3;
+    // one case in fifteen: the first message keeps the actor busy for a very long time (longer than any built-in
+    // patience): senders that wait for room keep waiting
+    if g.prog.actors[0].mailbox.is_some() && g.rng.chance(1, 15) {
+        g.prog.clients[0].push(Op::Send { slot: 0, script: vec![PStep::Sleep(*g.rng.pick(&[6000u64, 11000]))], cancel: None });
+    }
     // one case in five: the actor hands out `ctx.weak_sender()`, and a client floods it through that handle
     let export = g.rng.chance(1, 5);
     if export {
